@@ -62,6 +62,8 @@ def call_method(I, recv, name, args, kwargs):
         raise Unsupported(f'method {name} on a comprehension over a symbolic list')
     if type(recv).__name__ == 'SymList':
         from . import heap as H
+        if name == 'append' and args and type(args[0]).__name__ != 'SymObj' and not isinstance(args[0], (Obj,)):
+            raise Unsupported('append of a non-object to a symbolic list')
         if name == 'insert':
             return H.lst_insert(I, recv, args[0], args[1])
         if name == 'append':
